@@ -240,3 +240,40 @@ def operation_follows_the_flag_item_as_declared(shape, pos: int, block: bytes, c
     h2 = heater("C", cur, real, None, s)
     ensures("cooling-flag-on-means-cooling", implies(want, h2.current_operation == "Cooling"))
     cover("reached-end", True)
+
+
+# ------------------------------------------- the sensor objects between the heater and the items never cache a reading
+from geckolib.automation.sensors import GeckoSensor
+from geckolib.driver.accessor import GeckoEnumStructAccessor
+from geckolib.driver.spastruct import GeckoStructure
+
+
+@harness(prop="C14", target="geckolib.automation.sensors:GeckoSensor.state", name="sensor_reading_follows_block_and_unit_at_every_read")
+def sensor_reading_follows_block_and_unit_at_every_read(b1: bytes, b2: bytes, tpos: int):
+    """read, then the block changes in ANY way (a partial update that touches only the unit byte, a refresh, a loaded snapshot),
+    then read again: the sensor presents what the item decodes to NOW, in the unit that is set NOW (exact-rational floats: only
+    'same as the item's own reading' is claimed here, the arithmetic is proved above)"""
+    exact_rational_floats(True)
+    requires(both(len(b1) == 1024, len(b2) == 1024, 2 <= tpos, tpos + 2 <= 1024))
+    s = GeckoStructure(None)
+    s.set_status_block(b1)
+    units = GeckoEnumStructAccessor(s, "TempUnits", 0, None, ["F", "C"], None, None, "ALL")
+    t = GeckoTempStructAccessor(s, "SetpointG", tpos, "ALL")
+    s.accessors = {"TempUnits": units, "SetpointG": t}
+    sensor = GeckoSensor(FlagFacade(), "Target", t, units)
+    first = sensor.state
+    ensures("first-reading-is-the-item's", first == t.value)
+    s.replace_status_block_segment(0, b2)             # every watcher is told, as in the library
+    ensures("later-reading-is-the-item's-current-one", sensor.state == t.value)
+    ensures("unit-shown-is-the-current-one", sensor.unit_of_measurement == units.value)
+    s.set_status_block(b1)                             # installed without any notification (snapshot load / reconnect)
+    ensures("reading-after-a-silent-block-change-is-current-too", sensor.state == t.value)
+
+
+@harness(prop="C14", target="geckolib.const:GeckoConstants", name="heater_reads_the_items_the_tables_declare")
+def heater_reads_the_items_the_tables_declare():
+    """the item names the heater looks up are the names the table modules use (a misspelt constant silently drops a flag)"""
+    C = GeckoConstants
+    ensures("flag-and-temperature-item-names",
+            both(C.KEY_HEATING == "Heating", C.KEY_COOLINGDOWN == "CoolingDown", C.KEY_SETPOINT_G == "SetpointG",
+                 C.KEY_REAL_SETPOINT_G == "RealSetPointG", C.KEY_DISPLAYED_TEMP_G == "DisplayedTempG", C.KEY_TEMP_UNITS == "TempUnits"))
